@@ -290,6 +290,11 @@ def write_evidence(pid, tier, seed, coverage, assumptions, wall_s, violations, l
           'coverage': coverage, 'assumptions': assumptions,
           'wall_s': round(wall_s, 2), 'violations': violations}
     path = os.path.join(EVIDENCE_DIR, pid + '.json')
+    if os.path.realpath(REPO) != '/repo':
+        # a run against another tree (VERIF_REPO: a seeded change, a pre-fix worktree) is no evidence about /repo:
+        # it is kept beside the replay files (not committed) and never overwrites evidence/<id>.json
+        os.makedirs(REPLAY_DIR, exist_ok=True)
+        path = os.path.join(REPLAY_DIR, 'evidence-%s.json' % pid)
     tmp = path + '.tmp'
     with open(tmp, 'w') as fh:
         json.dump(ev, fh, indent=1, sort_keys=True, default=str)
